@@ -89,7 +89,7 @@ func (S) Info() scen.Info {
 			"reference model":      "abstract tree with expanded links + reference updater (replace / insert / delete / append / create-parents / transparent link crossing)",
 		},
 		QuickUnits: 24000, ThoroughUnits: 3000000, QuickSecs: 40, ThoroughSecs: 1200,
-		ProbeKeys: []string{"probe.below_link", "probe.below_two_links", "probe.delete_map", "probe.insert_key", "probe.append", "probe.create_parents", "probe.identity", "probe.expected_error", "probe.typed_transform", "probe.selector_reused", "probe.float_zero_sign_flipped_below_link", "probe.walk_transform", "probe.walk_transform_selector_matched", "probe.int_backed_segment", "probe.fault_made_transform_fail", "probe.fault_survived", "probe.history_ge_3"},
+		ProbeKeys: []string{"probe.below_link", "probe.below_two_links", "probe.delete_map", "probe.insert_key", "probe.append", "probe.create_parents", "probe.identity", "probe.expected_error", "probe.typed_transform", "probe.replacement_from_other_implementation", "probe.selector_reused", "probe.float_zero_sign_flipped_below_link", "probe.walk_transform", "probe.walk_transform_selector_matched", "probe.int_backed_segment", "probe.fault_made_transform_fail", "probe.fault_survived", "probe.history_ge_3"},
 		EventsKey: "events",
 	}
 }
@@ -549,7 +549,8 @@ func (S) RunTape(t *sim.Tape, st *sim.Stats, keepLog bool) *sim.Outcome {
 		c := c
 		cl := cls[c]
 		s.Go(fmt.Sprintf("client%d", c), func() {
-			for step := 0; step < cl.steps; step++ {
+			lastStep := false
+			for step := 0; step < cl.steps && !lastStep; step++ {
 				s.Yield("step")
 				// ---- choose a transform against the current model ----
 				var ps []pinfo
@@ -562,6 +563,12 @@ func (S) RunTape(t *sim.Tape, st *sim.Stats, keepLog bool) *sim.Outcome {
 						// a replacement that differs from a float zero only in its sign (and from nothing else at all)
 						st.Inc("probe.negative_zero_replacement")
 						return model.FloatV(math.Copysign(0, -1))
+					}
+					if t.Pct(10, "x.bindrepl") {
+						// a typed subtree refuses later transforms that do not fit its type, which the
+						// untyped reference knows nothing about: it is this client's last transform
+						lastStep = true
+						return model.MapV().Put("X", model.IntV(int64(t.Choice(99, "x.bx")))).Put("Y", model.StringV("bound"))
 					}
 					b := 5
 					v := gen.Value(t, gen.DagJson, nil, &b, 1) // inside both block codecs' domains
@@ -858,6 +865,11 @@ func (S) RunTape(t *sim.Tape, st *sim.Stats, keepLog bool) *sim.Outcome {
 								return nil, nil
 							case 2:
 								return prev, nil
+							}
+							if act.repl.K == model.Map && len(act.repl.Keys) == 2 && act.repl.Keys[0] == "X" && act.repl.Keys[1] == "Y" {
+								// the replacement comes from another node implementation (a reflection-bound struct)
+								st.Inc("probe.replacement_from_other_implementation")
+								return bindnode.Wrap(&TInner{X: act.repl.Vals[0].I, Y: act.repl.Vals[1].S}, typedTS.TypeByName("TInner")), nil
 							}
 							nb := basicnode.Prototype.Any.NewBuilder()
 							model.Assemble(nb, act.repl, gen.LinkFromBin, nil)
